@@ -50,6 +50,12 @@ def main():
             if only and name not in only:
                 continue
             jobs.append(('refactor', name, d, os.path.join(HERE, 'refactors', name + '.patch')))
+        # refactorings written by independent sub-agents (DESIGN 14): all must be silent
+        for pth in sorted(glob.glob(os.path.join(HERE, 'refactors_ext', '*.patch'))):
+            name = 'ext:' + os.path.basename(pth)[:-6]
+            if only and name not in only and 'ext:*' not in only:
+                continue
+            jobs.append(('refactor', name, {}, pth))
     results = []
     with ThreadPoolExecutor(max_workers=a.jobs) as ex:
         futs = [(j, ex.submit(analyse, j[3], a.workroot)) for j in jobs]
